@@ -1592,12 +1592,19 @@ class Repository:
         )
 
         with finished_tracker, bytes_tracker:
-            await asyncio.gather(
-                *(
-                    loop.run_in_executor(loader, _download_chunk, *x)
-                    for x in chunks_references.items()
-                )
-            )
+            loader_futures = [
+                loop.run_in_executor(loader, _download_chunk, *x)
+                for x in chunks_references.items()
+            ]
+            try:
+                await asyncio.gather(*loader_futures)
+            except BaseException:
+                # Loader threads need this event loop to obtain and to return their
+                # slots. Drop the downloads that have not started, let the running
+                # ones finish, and only then propagate the failure
+                loader.shutdown(wait=False, cancel_futures=True)
+                await asyncio.gather(*loader_futures, return_exceptions=True)
+                raise
 
             for file_path in chunkless_files:
                 # No chunk download is going to create or finalise this file
